@@ -2741,7 +2741,9 @@ fn finish_report(mut ag: Aggr, planned: u64, stats: &tot::ParentStats, scratch: 
     ag.rep.assume("MidnightPK, full ParamsKZG and the RawBytesUnchecked reader are local/trusted artefacts: exercised, counted under reported_only, never violations");
     ag.rep.assume("compile-stage memory/time growth with declared ZKIR sizes is reported, not a violation; compile-stage panics are violations");
     ag.rep.assume("acceptance of a proof under a changed key / of a changed proof is only counted here (C03 decides it)");
-    tot::remove_scratch(scratch);
+    if !ag.rep.ctx.extra.contains_key("keep-scratch") {
+        tot::remove_scratch(scratch);
+    }
     ag.rep.finish()
 }
 
